@@ -275,6 +275,17 @@ class IntegralGenerator:
 
     def generate_quadrature_loop(self, quadrature_rule: QuadratureRule, domain: basix.CellType):
         """Generate quadrature loop with for this quadrature_rule."""
+        piecewise = []
+        if quadrature_rule.points.shape[0] == 1:
+            # With a single point every value is "piecewise". Such values hold at the point
+            # of this rule only: they are computed in the loop of this rule, in its own scope
+            F = self.ir.expression.integrand[(domain, quadrature_rule)]["factorization"]
+            arraysymbol = L.Symbol(f"sp_{quadrature_rule.id()}", dtype=L.DataType.SCALAR)
+            pdefinitions, pintermediates = self.generate_partition(
+                arraysymbol, F, "piecewise", quadrature_rule, domain
+            )
+            piecewise = pdefinitions + pintermediates
+
         # Generate varying partition
         definitions, intermediates_0 = self.generate_varying_partition(quadrature_rule, domain)
 
@@ -302,7 +313,7 @@ class IntegralGenerator:
         iq = create_quadrature_index(quadrature_rule, iq_symbol)
 
         code = definitions + intermediates + tensor_comp
-        code = optimize(code, quadrature_rule)
+        code = piecewise + optimize(code, quadrature_rule)
 
         return [L.create_nested_for_loops([iq], code)]
 
@@ -311,6 +322,9 @@ class IntegralGenerator:
         # Get annotated graph of factorisation
         F = self.ir.expression.integrand[(domain, quadrature_rule)]["factorization"]
         arraysymbol = L.Symbol(f"sp_{quadrature_rule.id()}", dtype=L.DataType.SCALAR)
+        if quadrature_rule.points.shape[0] == 1:
+            # See generate_quadrature_loop
+            return []
         return self.generate_partition(arraysymbol, F, "piecewise", None, None)
 
     def generate_varying_partition(self, quadrature_rule, domain: basix.CellType):
